@@ -13,7 +13,7 @@ META = {
              'kind, sorted (dtype+order, layout, cast), window?, outcome); non-trivial when a buffer is a view, '
              'read-only, big-endian, cast, or the write failed'),
     'required_obs': {'quick': ['digest-compared', 'src-inline', 'src-dict', 'src-struct', 'src-hdf5', 'big-endian',
-                               'cast', 'view', 'readonly', 'failed-write', 'h5-open-audited', 'readonly-differential', 'native-zero-copy', 'dict-plus-inline', 'hc-write-ok', 'cast-of-out-of-range-values', 'special-values-in-index']},
+                               'cast', 'view', 'readonly', 'failed-write', 'h5-open-audited', 'readonly-differential', 'native-zero-copy', 'dict-plus-inline', 'hc-write-ok', 'cast-of-out-of-range-values', 'special-values-in-index', 'syscall-source-open-seen']},
     'assumptions': ['sys.addaudithook sees Python-level open(); h5py opens are observed through the h5py.File mode '
                     'argument recorded by a wrapper on h5py.File.__init__ and, in the thorough tier, through strace'],
 }
@@ -28,6 +28,10 @@ def cases(tier, seed):
     # native, contiguous, un-cast data: the place where a zero-copy path (and so an in-place edit) can live
     for k in range(120 if tier == 'quick' else 3000):
         yield {'stratum': 'native-zero-copy', 'index': k, 'kind': 'native'}
+    # the HDF5 source as the operating system sees it: strace of a child that does nothing but one write between two markers
+    # (h5py opens the file from C; no Python-level hook sees that)
+    for k in range(6 if tier == 'quick' else 100):
+        yield {'stratum': 'syscall-trace', 'index': k, 'kind': 'syscalls'}
     # INDEXED frames whose index channel holds special values (both zeros with the minimum / maximum at zero, NaN, infinities,
     # repeated values): what the library works out about the index (bounds, spacing, direction) it works out on a copy
     for k in range(80 if tier == 'quick' else 1500):
@@ -67,6 +71,27 @@ def run_case(case):
 
     _patch_h5()
     r = gen.rng(seed, PROP, case['stratum'], case['index'])
+    if case['kind'] == 'syscalls':
+        from vf import syscalls
+        if not syscalls.available():
+            bump('strace-unavailable')
+            return {'evals': 0, 'violations': [], 'obs': obs, 'sigs': [], 'sample': None}
+        sp = gen.frame_spec(r, casts=r.random() < 0.4, window=r.random() < 0.4, nframes=r.choice([1, 2]), sources=('hdf5',))
+        if r.random() < 0.3:
+            sp['write']['hc'] = True
+        ev = syscalls.trace(sp)
+        if ev['markers'] != (True, True) or ev['build_error'] or ev['write'] is None or not ev['source']:
+            raise RuntimeError(f'traced child did not run the write: {ev["markers"]} {ev["build_error"]}')
+        bump('syscall-traced')
+        n_open = sum(1 for o in ev['opens'] if o[0] == 'source')
+        bump('syscall-source-opens', n_open)
+        if n_open:
+            bump('syscall-source-open-seen')
+        for b_ in syscalls.judge_source(ev):
+            vio.append({'prop': PROP, 'kind': 'caller-data-altered', 'mech': 'syscall:' + b_[:60],
+                        'detail': f'{b_} (write outcome {ev["write"][:2]})'})
+        return {'evals': 1, 'violations': vio, 'obs': obs, 'sigs': [f'syscalls:hdf5:{ev["write"][0]}:{min(n_open, 3)}'],
+                'sample': {'kind': 'syscall trace', 'source_opens': n_open, 'outcome': ev['write'][:2]}}
     if case['kind'] == 'native':
         sp = gen.frame_spec(r, casts=False, window=r.random() < 0.3, nframes=1, orders='<=', layouts=('C', 'C', 'view'),
                             sources=('struct', 'struct', 'dict', 'inline', 'hdf5'), nch=r.choice([2, 3]))
